@@ -153,15 +153,31 @@ func (e *Engine) rewriteStubs(tmp string, repl map[string]string) error {
 		if extraImports[file] == nil {
 			extraImports[file] = map[string]string{}
 		}
+		// parameter / receiver names shadow package names inside the function body, where the guard is inserted
+		shadowed := map[string]bool{}
+		if decl.Recv != nil {
+			for _, f := range decl.Recv.List {
+				for _, n := range f.Names {
+					shadowed[n.Name] = true
+				}
+			}
+		}
+		for _, f := range decl.Type.Params.List {
+			for _, n := range f.Names {
+				shadowed[n.Name] = true
+			}
+		}
 		qual := func(p *types.Package) string {
 			if p == fn.Pkg.Pkg {
 				return ""
 			}
 			if n, ok := imports[p.Path()]; ok && n != "_" && n != "." {
 				if n == "" {
-					return p.Name()
+					n = p.Name()
 				}
-				return n
+				if !shadowed[n] {
+					return n
+				}
 			}
 			if a, ok := extraImports[file][p.Path()]; ok {
 				return a
